@@ -70,3 +70,59 @@ Theorem C08_restart_invisible_on_valid_runs :
     (model.AbftRun.run cap [] model.Abft.sample (model.AbftRun.start 1 vals) (proofs.LinkRestart.abft_ops_r lam vals rs D)).
 Proof. exact proofs.LinkRawRestart.link_restart_raw. Qed.
 Print Assumptions C08_restart_invisible_on_valid_runs.
+
+(* ---- appended by worker link: restarts at ANY operation boundary of a valid single-epoch run ----
+   Stronger than C08_restart_invisible_on_valid_runs: the restarts (OpR among the noise of the schedule)
+   may also come right after a rejected Process (ErrWrongFrame), between the Build and the Process of
+   the same event, after speculative Builds of arbitrary events and after probes; any forkless-cause
+   cache capacity, validators in any order.  The observations of the valid events equal those of the
+   never-restarted, noise-free run and the reference.  (proofs/LinkNoise.v: restart_step inside
+   noise_step; same statement as C07_no_trace_any_cache.) *)
+From LV Require proofs.LinkNoise proofs.LinkNoiseRaw proofs.LinkPerm proofs.LinkNoiseExample proofs.LinkExample.
+Theorem C08_restart_invisible_at_any_boundary :
+  forall (cap : nat) lam vals (sc : list proofs.LinkNoise.slot) (tl : list model.AbftRun.op) J K,
+  let D := map proofs.LinkNoise.s_ev sc in
+  let ops := proofs.LinkNoise.sched_ops lam vals sc tl in let mask := proofs.LinkNoise.sched_mask sc tl in
+  proofs.LinkPerm.raw_ok vals -> (model.Abft.v_total vals < 2 ^ 31)%N -> proofs.LinkNoise.noise_side D J K ops ->
+  proofs.BftProps.valid_run vals D ->
+  proofs.LinkNoise.ok_from cap J (model.AbftRun.start 1 vals) ops mask ->
+  proofs.LinkDefs.render (proofs.LinkNoise.pick mask (model.AbftRun.run cap [] model.Abft.sample (model.AbftRun.start 1 vals) ops))
+    = spec.ElectionSpec.reference vals D /\
+  proofs.LinkDefs.render (proofs.LinkNoise.pick mask (model.AbftRun.run cap [] model.Abft.sample (model.AbftRun.start 1 vals) ops))
+    = proofs.LinkDefs.abft_run cap lam vals D.
+Proof. exact proofs.LinkNoiseRaw.link_noise_raw. Qed.
+
+(* non-vacuity: four restarts, one right after a rejected Process, one between a Build and its Process,
+   one after a rejected Process between a Build and its Process, one at the end; each reports no error and no block *)
+Example C08_restart_at_any_boundary_example :
+  map proofs.LinkNoise.s_ev proofs.LinkNoiseExample.rx_sc = proofs.LinkExample.ex3_D /\
+  proofs.LinkNoise.noise_side proofs.LinkExample.ex3_D proofs.LinkNoiseExample.nx_J 100 proofs.LinkNoiseExample.rx_ops /\
+  proofs.LinkNoise.ok_from 200 proofs.LinkNoiseExample.nx_J (model.AbftRun.start 1 proofs.BftProps.ex_vals)
+    proofs.LinkNoiseExample.rx_ops proofs.LinkNoiseExample.rx_mask /\
+  (length (filter (fun o => match o with model.AbftRun.ObsR None [] _ _ => true | _ => false end)
+      (model.AbftRun.run 200 [] model.Abft.sample (model.AbftRun.start 1 proofs.BftProps.ex_vals) proofs.LinkNoiseExample.rx_ops)) = 4%nat /\
+   proofs.LinkDefs.render (proofs.LinkNoise.pick proofs.LinkNoiseExample.rx_mask
+      (model.AbftRun.run 200 [] model.Abft.sample (model.AbftRun.start 1 proofs.BftProps.ex_vals) proofs.LinkNoiseExample.rx_ops))
+    = spec.ElectionSpec.reference proofs.BftProps.ex_vals proofs.LinkExample.ex3_D).
+Proof.
+  exact (conj proofs.LinkNoiseExample.rx_D (conj proofs.LinkNoiseExample.rx_side
+        (conj proofs.LinkNoiseExample.rx_ok proofs.LinkNoiseExample.rx_restarts))).
+Qed.
+Print Assumptions C08_restart_invisible_at_any_boundary.
+
+(* ---- appended by worker link: a restart right after a seal (or right after genesis / Reset) ----
+   fresh_inst = the instance an epoch starts with (what a sealing block leaves behind: C09_epoch_matches_...).
+   Restarting it reports no error and no block, and the run over the following epochs still equals the
+   reference (multi-epoch L1, proofs/LinkEpochsCor.v). *)
+From LV Require proofs.LinkEpoch proofs.LinkSeal proofs.LinkEpochs proofs.LinkEpochsCor.
+Theorem C08_restart_after_seal_invisible :
+  forall cap lam pol seal polr K ep vals Ds conf c es, (K < 2 ^ 192)%N ->
+  proofs.LinkEpochs.epochs_ok seal polr vals ep Ds -> proofs.LinkEpochs.pol_ok pol seal polr vals ep (length Ds) ->
+  (forall D e, In D Ds -> In e D -> proofs.LinkDefs.id_fresh K (model.VecIndex.eid (spec.ElectionSpec.fe e))) ->
+  (N.of_nat (proofs.LinkEpochs.total_events Ds) <= K)%N ->
+  let i0 := proofs.LinkEpochs.fresh_inst ep (model.Abft.mk_vals vals) conf c es in
+  fst (fst (model.AbftRun.step cap pol model.Abft.sample i0 model.AbftRun.OpR)) = model.AbftRun.ObsR None [] 0 ep /\
+  proofs.LinkEpochs.model_epochs cap lam pol polr (snd (fst (model.AbftRun.step cap pol model.Abft.sample i0 model.AbftRun.OpR))) vals ep Ds
+    = spec.ElectionSpec.reference_epochs seal polr vals ep Ds.
+Proof. exact proofs.LinkEpochsCor.link_restart_after_seal. Qed.
+Print Assumptions C08_restart_after_seal_invisible.
